@@ -29,6 +29,11 @@ def check(ctx):
     ctx.guarded(o, lambda o: box.__setitem__('pt', sched_dep.prerequisite_collection(ctx, o, ps)))
     pt = box.get('pt')
 
+    o = ctx.ob('every_ancestor_contributes', 'R8',
+               "the scan of the ancestors adds the successors of EVERY ancestor: no early exit from the loop, no condition on the "
+               "ancestor other than 'it has successors'")
+    ctx.guarded(o, lambda o: inherited_complete(ctx, o, ps, pt))
+
     o = ctx.ob('successors_scheduled_first', 'R5',
                "every (own or inherited) successor is handed to the recursive pass before its start is read, and the "
                "collection is complete before that recursion starts")
@@ -40,6 +45,11 @@ def check(ctx):
 
     o = ctx.ob('bound_handed_to_children', 'R8', "children are scheduled with a bound that includes the parent's bound")
     ctx.guarded(o, lambda o: sched_dep.handdown(ctx, o, ps, pt))
+
+    o = ctx.ob('summary_dates_cover_all_children', 'R8',
+               "a summary's start/end (which carry the inherited dependencies of its children) are taken over ALL children: the "
+               "child collection of the roll-up is not filtered by anything but `<date> is not None`")
+    ctx.guarded(o, lambda o: summary_covers_children(ctx, o, ps))
 
     o = ctx.ob('roots_and_preflight', 'R5',
                "calc validates its input (isolation, loops) before cloning and schedules every root with the project end, "
@@ -54,6 +64,12 @@ def check(ctx):
                "the availability search starts at nearest availability before the bound minus one day and steps exactly -1 day; "
                "the result is midnight(day) - fraction")
     ctx.guarded(o, lambda o: sched_dep.search_monotone(ctx, o, S))
+
+    from .c08 import search_from_release
+    o = ctx.ob('search_examines_every_day', 'R8',
+               "the day the backward search examines first depends only on the bound and the resource's calendar, not on remembered "
+               "state kept on the ledger or the scheduler", floor=1)
+    ctx.guarded(o, lambda o: search_from_release(ctx, o, S))
 
     # the schedulers start their search at IResource.get_nearest_availability_date: its shape is C17's obligation, reused here
     from . import c17 as _c17
@@ -76,6 +92,21 @@ def check(ctx):
                "end = midnight(d) + 1 day - 1 day * RESV(d)/CAP(d) (share booked before the task); start = midnight(first) + 1 day - "
                "1 day * RESV'(first)/CAP(first) with RESV' read after the loop, same resource/day/selector", floor=2)
     ctx.guarded(o, lambda o: sched_fill.encoding(ctx, o, ps))
+
+    # the capacities the late-packing is measured against come from the calendars through Resource.get_available_units: it must
+    # answer for the day asked, statelessly (C17's obligations, reused as in C08); and the ledger must answer per calendar day
+    _c17._leaf_semantics(ctx)
+    _c17._none_zero(ctx)
+    from .c03 import ledger_shape
+    o = ctx.ob('ledger_day_key', 'R10',
+               "ledger rows are stored under midnight(day) and every query is computed from the rows with that key (an index by a "
+               "part of the date makes free days look booked: work days are skipped)", floor=2)
+    ctx.guarded(o, lambda o: ledger_shape(ctx, o))
+
+    o = ctx.ob('ledger_is_fresh', 'R9',
+               "every calc() starts from an empty ledger: the ledger's row list is allocated per ledger object (no shared mutable "
+               "default), and calc hands a ledger constructed by this call to the pass", floor=2)
+    ctx.guarded(o, lambda o: sched_fill.ledger_fresh(ctx, o, S))
 
     o = ctx.ob('selector_everywhere', 'R11',
                "every ledger query of the backward scheduler uses the selector 'all tasks when balancing, own task otherwise' "
@@ -114,3 +145,110 @@ def fill_start(ctx, o, ps: PassShape):
         o.refute(fill, first[1], first[1], f"the first day examined by the backward fill is midnight(end) {first[0]:+g} day(s); expected -1")
     else:
         o.site(fill, first[1], "first day = midnight(end) - 1 day")
+
+
+def inherited_complete(ctx, o, ps: PassShape, pt):
+    """the loop over the ancestors that grows the successor collection visits every ancestor and adds unconditionally
+    (a guard `if parent.successors:` is harmless).  A `break` after the first ancestor that has successors drops the
+    successors of all farther ancestors."""
+    if pt is None or not pt.get('sources'):
+        o.undecided(ps.f, ps.f.node, 'ancestors', "successor collection not recognised")
+        return
+    task, rel = ps.task, ps.rel
+    seen = 0
+    for d in pt['sources']['defs']:
+        if isinstance(d, ast.AST):
+            node, stmt = ps.cfg.node_containing(d), d
+        else:
+            node, stmt = d.node, d.stmt
+        if node is None:
+            continue
+        for fo in ps.cfg.enclosing_fors(node):
+            it = ps.ex.expand(fo.iter, ps.cfg.node_of(fo))
+            for _ in range(2):
+                m = match("list($x)", it) or match("tuple($x)", it) or match("[$v for $v in $x]", it)
+                if m:
+                    it = m['x']
+            if not match(f"{task}.all_parents", it) or not isinstance(fo.target, ast.Name):
+                continue
+            seen += 1
+            var = fo.target.id
+
+            def harmless(t, pol):
+                e = sched.is_emptiness(t, pol)
+                if e is None and isinstance(t, ast.Attribute):
+                    e = (t, not pol)
+                return e is not None and not e[1] and match(f"{var}.{rel}", e[0]) is not None
+
+            def inside(t):
+                return any(x is t for st in fo.body for x in ast.walk(st))
+            conds = [(t, pol) for t, pol in ps.cfg.conditions(node) if inside(t)]
+            extra = [(t, pol) for t, pol in conds if not harmless(t, pol)]
+            exits = [x for x in walk_no_nested(fo) if isinstance(x, (ast.Break, ast.Return))]
+            inner = [x for x in walk_no_nested(fo) if isinstance(x, (ast.For, ast.While)) and x is not fo]
+            exits = [x for x in exits if not any(y is x for lp in inner for y in ast.walk(lp)) or isinstance(x, ast.Return)]
+            if exits:
+                x = exits[0]
+                xc = [(t, pol) for t, pol in ps.cfg.conditions(ps.cfg.node_of(x)) if inside(t)]
+                if xc and all(harmless(t, pol) for t, pol in xc):
+                    o.refute(ps.f, x, fo, f"the scan of the ancestors stops (`{src(x)}`) at the nearest ancestor that has {rel}: the {rel} declared "
+                                          f"on farther ancestors are neither scheduled first nor part of the deadline of the task")
+                elif not xc:
+                    o.refute(ps.f, x, fo, f"the scan of the ancestors leaves the loop unconditionally after the first ancestor (`{src(x)}`): "
+                                          f"{rel} of farther ancestors are not inherited")
+                else:
+                    o.undecided(ps.f, x, x, "the loop over the ancestors can end early under " + ', '.join(facts.cond_texts(xc))[:100])
+                continue
+            if extra:
+                o.undecided(ps.f, stmt, stmt, f"the {rel} of an ancestor are added only under " + ', '.join(facts.cond_texts(extra))[:100])
+                continue
+            o.site(ps.f, stmt, f"every ancestor's {rel} are added" + (" (guard: it has some)" if conds else ""))
+    if seen == 0:
+        # no statement loop over the ancestors (e.g. one nested comprehension): completeness is decided by successors_inherited
+        o.site(ps.f, pt['stmt'], "ancestors' successors collected without an explicit loop")
+
+
+def _strip_seq(e):
+    for _ in range(3):
+        m = match("reversed($x)", e) or match("list($x)", e) or match("tuple($x)", e) or match("$x[::-1]", e)
+        if not m:
+            break
+        e = m['x']
+    return e
+
+
+def summary_covers_children(ctx, o, ps: PassShape):
+    """roll-up terms `[c.start for c in X ...]` / `[c.end for c in X ...]` of the summary region: X is task.children itself, not
+    a subset selected by a condition on the child (e.g. 'not yet in the memo').  The general roll-up shape is C07's obligation;
+    only the recognised filtered-subset shape is refuted here, unrecognised spellings are left to C07."""
+    n = 0
+    for attr in ('start', 'end'):
+        for st, tgt, val, reg in ps.stores(attr):
+            if reg['milestone'] is True or reg['leaf'] is True:
+                continue
+            v = ps.ex.expand(val, ps.cfg.node_of(st))
+            for x in ast.walk(v):
+                parts = facts.comp_parts(x)
+                if not parts:
+                    continue
+                elt, t, it, ifs = parts
+                if not (isinstance(t, ast.Name) and match(f"{t.id}.{attr}", elt)):
+                    continue
+                seq = _strip_seq(it)
+                if match(f"{ps.task}.children", seq):
+                    n += 1
+                    o.site(ps.f, st, f"summary {attr}: over task.children")
+                    continue
+                inner = facts.comp_parts(seq)
+                if inner and isinstance(inner[1], ast.Name) and isinstance(inner[0], ast.Name) and inner[0].id == inner[1].id and \
+                        match(f"{ps.task}.children", _strip_seq(inner[2])):
+                    flt = [c for c in inner[3] if not match(f"{inner[1].id}.{attr} is not None", c)]
+                    n += 1
+                    if flt:
+                        o.refute(ps.f, st, flt[0], f"summary {attr} is rolled up only over the children with `{src(flt[0])[:60]}`: a child left out "
+                                                   f"(e.g. one placed earlier through a dependency link) no longer bounds the summary, so dependencies "
+                                                   f"declared on the summary are not enforced for it")
+                    else:
+                        o.site(ps.f, st, f"summary {attr}: over task.children")
+    if n == 0:
+        o.site(ps.f, ps.f.node, "no comprehension-style roll-up over a child collection (shape is C07's obligation)")
